@@ -139,6 +139,20 @@ func ruleVarSlice(funcs []string) func(c *Ctx, r *Rep, tier string) {
 						cont, bounds, strict = x.X, []ssa.Value{x.Index}, true
 					}
 				}
+				if sl, isSl := ins.(*ssa.Slice); isSl && sl.High != nil {
+					if _, isC := sl.High.(*ssa.Const); !isC {
+						r.Instance(rule, 1)
+						key := fmt.Sprintf("%s#low-high", c.FnName(fn))
+						if ok, why := bc.sliceOrdered(sl); ok {
+							r.Pass(rule, key, c.Pos(ins.Pos()), why)
+						} else if t, isT := idxTrusted["VAR-SLICE-ORDER|"+c.FnName(fn)]; isT {
+							r.Trusted(rule, 1)
+							r.Pass(rule, key, c.Pos(ins.Pos()), "assumed invariant: "+t)
+						} else {
+							r.Fail(rule, key, c.Pos(ins.Pos()), why+": s[low:high] with high below low panics")
+						}
+					}
+				}
 				if cont == nil || len(bounds) == 0 {
 					return
 				}
@@ -156,6 +170,10 @@ func ruleVarSlice(funcs []string) func(c *Ctx, r *Rep, tier string) {
 					}
 					if bc.boundedByLen(h, cont, ins.Block(), strict) {
 						r.Pass(rule, key, pos, "bound compared with len on a dominating edge")
+						continue
+					}
+					if !strict && bc.boundedByLenMinus(h, cont, ins.Block()) {
+						r.Pass(rule, key, pos, "k' + e with unsigned e, and e compared with len − k (k ≥ k') on a dominating edge")
 						continue
 					}
 					if !strict && indexByteBound(h, cont) {
